@@ -2,7 +2,7 @@ import Driver.Util
 import ClairModel.Model.TarFS
 import ClairModel.Model.TarFSExtract
 import ClairModel.Model.TarFSDir
-import ClairModel.Model.LayerFS
+import ClairModel.Model.TarFSLayer
 
 /-
   Line protocol of property C11 (see go/internal/c11):
